@@ -375,7 +375,7 @@ def value_step(x, v, st, proc):
             if got != obs["p"]: raise Mismatch("values:HashableDense:explicit-hash" + (":zero" if obs["p"] == 0 else ""), "hash(HashableDense(%r, %d)) = %d" % (list(x), obs["p"], got))
             return x
         # the spec: the hash is a function of the canonical text and of the process - the hash of an equal value made in this process
-        fresh = [plain(v)] if v["t"] != "map" else []
+        fresh = [plain(v)] if v["t"] != "map" else [py({"t": "map", "v": v["v"][::-1]})]      # the same mapping built in the other order
         fresh.append(pyval(v))
         for f in fresh:
             if hash(f) != got or hash(x) != got:
@@ -715,7 +715,8 @@ def run(ctx):
     ctx.exhaustive = True
     ctx.extra["behaviours"] = {k: len(v) for k, v in cases.items()}
 
-    ctx.extra["seconds_tlc"] = round(__import__("time").time() - ctx.t0, 1)
+    import time
+    ctx.extra["seconds_tlc"] = round(time.time() - ctx.t0, 1)
     # ---- 2. replay on the real classes ----
     taken = collections.Counter()
     steps_total = 0
@@ -735,7 +736,7 @@ def run(ctx):
             except Mismatch as m:
                 ctx.violation(m.sig, m.what, j)
         for j in cases[c["name"]][::max(1, len(cases[c["name"]]) // 3)][:3]: ctx.sample({"config": c["name"], "steps": j["steps"][:4]}, limit=12)
-        ctx.extra.setdefault("seconds_replay", {})[c["name"]] = round(__import__("time").time() - ctx.t0, 1)
+        ctx.extra.setdefault("seconds_elapsed_after", {})[c["name"]] = round(time.time() - ctx.t0, 1)
 
     # ---- values: the part of a behaviour after `transport` runs in a python process with another hash salt ----
     pending_all = 0
